@@ -9,7 +9,7 @@
    no (address, length) is declared twice, and no IPv6 subnet of length 1..95
    contains ::ffff:0:0 (known finding F20, see the two C03_rdb_is_lpm_refuted theorems). *)
 From DnsV Require Import Base.Bytes Base.Ip Spec.Lpm Model.Rearranger Model.Location.
-From DnsV Require Import Proofs.Lpm Proofs.Location Proofs.Rearranger.
+From DnsV Require Import Proofs.Lpm Proofs.Location Proofs.Rearranger Proofs.RdbLocate.
 From Coq Require Import Permutation.
 Open Scope N_scope.
 
@@ -48,6 +48,23 @@ Theorem C03_rdb_is_lpm : forall sort S a plen,
   exists pts, rearrange sort S = Ok pts /\ pt_locate pts a plen = lpm S (fam a) a plen.
 Proof. exact rearrange_is_lpm. Qed.
 Print Assumptions C03_rdb_is_lpm.
+
+(* the same at the level of the driver: GetLocationByMap of the RocksDB backend
+   (search key = marker, map, masked client address, prefix length; SeekForPrev in
+   bytewise order; the closest key must carry the marker and map; value decoding)
+   on any database whose range-point records of map m are exactly those of the
+   points Rearrange returned.  The client is given as the callers build it. *)
+Theorem C03_rdb_driver_is_lpm : forall sort, sort_spec sort -> forall S, wf_subnets S ->
+  forall pts, rearrange sort S = Ok pts ->
+  forall (db : list kv) (m : mapid),
+  (forall p, In p pts -> In (rp_key m p, mv1 (rp_value p)) db) ->
+  (forall k v, In (k, v) db -> is_prefix (rp_marker ++ mapid_bytes m) k = true ->
+     exists p, In p pts /\ k = rp_key m p /\ v = mv1 (rp_value p)) ->
+  forall a bits ones plen, a < two128 -> client_plen a bits ones plen ->
+  rdb_get_location db m (mkClient (Some a) bits ones) =
+  Ok (lpm_result (lpm S (fam (clean_mask a plen)) (clean_mask a plen) plen)).
+Proof. exact rdb_driver_is_lpm. Qed.
+Print Assumptions C03_rdb_driver_is_lpm.
 
 (* outside the guard the faithful model violates the property (finding F20):
    ::/64 alone, client ::1:0:0:1 inside it gets no location *)
